@@ -80,6 +80,9 @@ func (d *Provider) Block() {
 		return
 	}
 	for key, defaultVal := range d.defaultInstances {
+		if _, ok := d.factories[key]; ok {
+			continue
+		}
 		if _, ok := d.instances[key]; !ok {
 			if d.autoclean {
 				delete(d.defaultFactories, key)
